@@ -70,7 +70,6 @@ PROPS['C16'] = {
 PROPS['C16']['thorough'] = PROPS['C16']['quick']
 
 NOT_APPLICABLE = {
-    'C17': 'not decided by this technique here: write_colored frames the data through std formatted writes; every harness shape tried on the verbatim-extracted function (symbolic and concrete colour pairs, std `write!`, a local `write!` with the documented write_fmt meaning, a directly constructed Formatter, byte-wise and per-call recording writers, with and without an unwinding bound, --restrict-vtable) exceeded 15-30 min and 4-9 GB in CBMC; only the uncoloured case finishes, which does not decide the statement (DESIGN.md section 8, items 20-21 and 23)',
     'C14': 'whole-document XML/string property through format!, html_escape, unicode-width and BTreeMap: no contract language available here can state well-formedness over String; Verus has no str/format reasoning and Kani does not terminate on this code (DESIGN.md section 6)',
     'C15': 'segmentation is the cansi crate, escaping/rendering the roff crate (opaque Roff type); the repository-own logic is five finite leaf functions that do not decide the statement (DESIGN.md section 6)',
 }
@@ -157,7 +156,7 @@ PROPS['C04'] = {
                     'valid-UTF-8-ness of text pieces is proved structurally in Verus (pieces start and end on non-continuation bytes) and bounded-checked with from_utf8 by Kani'],
     'explanation': 'Safety side-conditions of the verified units: Verus discharges no-overflow / in-bounds / unwrap obligations for every extracted function for all inputs; Kani checks the unsafe leaves (transmute for all 256 values, MaybeUninit slices, from_utf8_unchecked) and the 19-byte display buffer.',
 }
-C06_QUICK = ['stream_write_plumbing_interrupted', 'stream_write_plumbing_wouldblock', 'stream_write_plumbing_other', 'stream_write_all_plumbing', 'stream_methods_forward']
+C06_QUICK = ['stream_write_plumbing_interrupted', 'stream_write_plumbing_wouldblock', 'stream_write_plumbing_other', 'stream_write_all_plumbing', 'stream_method_write_once', 'stream_method_vectored_once', 'stream_method_write_all_once', 'stream_method_flush_once']
 C06_FMT = {'crate': 'anstream', 'harnesses': ['stream_write_fmt_plumbing', 'stream_write_fmt_formatter_error'], 'timeout': 1500, 'flags': ['-Z', 'stubbing', '-Z', 'restrict-vtable'], 'mem_gb': 12, 'io_error_unwind': 2, 'tag': 'rv'}
 PROPS['C06'] = {
     'level': 'proof',
@@ -209,7 +208,7 @@ PROPS['C08'] = {
     'level': 'model_checking',
     'functions': ['AutoStream::{new,auto,always_ansi,always_ansi_,always,never,into_inner,current_choice,choice}', 'impl Write for AutoStream (write, write_vectored, flush, write_all)'],
     'quick': {'kani': [
-        {'crate': 'anstream', 'harnesses': ['auto_new_never', 'auto_new_ansi_always', 'auto_new_always', 'auto_pass_one_write', 'auto_pass_all_write', 'auto_pass_vectored_write', 'auto_pass_flushes', 'auto_routed_one_write', 'auto_routed_all_write', 'auto_routed_vectored_write', 'auto_routed_flushes'], 'timeout': 1500, 'flags': ['-Z', 'stubbing', '-Z', 'restrict-vtable'], 'mem_gb': 12}]},
+        {'crate': 'anstream', 'harnesses': ['auto_new_never', 'auto_new_ansi_always', 'auto_new_always', 'auto_pass_one_write', 'auto_pass_all_write', 'auto_pass_vectored_write', 'auto_pass_flushes', 'auto_routed_one_write', 'auto_routed_all_write', 'auto_routed_vectored_write', 'auto_routed_flushes'], 'timeout': 1500, 'flags': ['-Z', 'stubbing', '-Z', 'restrict-vtable'], 'mem_gb': 12, 'io_error_unwind': 2, 'tag': 'rv'}]},
     'rule': 'one case = one harness over all colour choices / all four Write methods / symbolic buffers of <= 3 bytes; non-trivial = verified',
     'bounded': {**{h: 'one call of one method on a symbolic 2-byte buffer (every call is stateless in pass-through mode)' for h in ['auto_pass_one_write', 'auto_pass_all_write', 'auto_pass_vectored_write', 'auto_pass_flushes']},
                 **{h: 'one call of one method on a 2-byte buffer; that the call is routed through StripStream with the right buffer is what is checked, StripStream itself is C06' for h in ['auto_routed_one_write', 'auto_routed_all_write', 'auto_routed_vectored_write', 'auto_routed_flushes']}},
@@ -218,7 +217,9 @@ PROPS['C08'] = {
                     'inner writers other than the in-crate mock (Vec<u8>, Box<dyn Write>, File) are assumed to behave alike (the code is generic in S)'],
     'explanation': 'Constructor dispatch for all choices, the reported mode, byte-identical forwarding in pass-through mode and routing of the Never mode through the strip stream, all through one lock acquisition per call.',
 }
-PROPS['C08']['thorough'] = PROPS['C08']['quick']
+PROPS['C08']['thorough'] = {'kani': [dict(PROPS['C08']['quick']['kani'][0], harnesses=PROPS['C08']['quick']['kani'][0]['harnesses'] + [
+    'auto_new_dispatch', 'auto_passthrough_forwards', 'auto_never_is_strip_stream', 'auto_auto_uses_choice',
+    'auto_never_one_write', 'auto_never_all_write', 'auto_never_vectored_write', 'auto_never_flushes'], timeout=3000)]}
 
 PROPS['C12'] = {
     'level': 'model_checking',
@@ -248,19 +249,20 @@ PROPS['C11'] = {
 }
 PROPS['C11']['thorough'] = PROPS['C11']['quick']
 
-# C17 is not claimed (see NOT_APPLICABLE); its harness sources stay under kani/anstyle-wincon for reference
-C17_UNCLAIMED = '''
+C17_H = ['wincon_ansi_fg_0_3', 'wincon_ansi_fg_4_7', 'wincon_ansi_fg_8_11', 'wincon_ansi_fg_12_15', 'wincon_ansi_bg_0_3', 'wincon_ansi_bg_4_7', 'wincon_ansi_bg_8_11', 'wincon_ansi_bg_12_15',
+         'wincon_ansi_none', 'wincon_ansi_both_a', 'wincon_ansi_both_b', 'wincon_ansi_both_c', 'wincon_ansi_both_d', 'wincon_ansi_fail_both', 'wincon_ansi_fail_single']
 PROPS['C17'] = {
     'level': 'model_checking',
     'functions': ['anstyle_wincon::ansi::write_colored (cut verbatim; std `write!` bound to its documented meaning, rule E10)'],
-    'quick': {'kani': [{'crate': 'anstyle-wincon', 'harnesses': ['wincon_ansi_fg_only', 'wincon_ansi_bg_only', 'wincon_ansi_both', 'wincon_ansi_none', 'wincon_ansi_fail_first', 'wincon_ansi_fail_data', 'wincon_ansi_fail_reset'], 'timeout': 2400, 'mem_gb': 7, 'jobs': 8, 'fmt_direct': True, 'flags': ['-Z', 'restrict-vtable']}]},
-    'bounded': {h: 'one concrete colour pair (fg only / bg only / both / none / via the dyn Write impl); data 1-2 symbolic bytes, failure at any inner write, any prefix of the data accepted' for h in ['wincon_ansi_fg_only', 'wincon_ansi_bg_only', 'wincon_ansi_both', 'wincon_ansi_none', 'wincon_ansi_fail_first', 'wincon_ansi_fail_data', 'wincon_ansi_fail_reset']},
-    'rule': 'one case = one colour-pair shape x all data bytes x failure points x accepted prefixes; non-trivial = verified with short-write and error covers reached',
-    'assumptions': ['std `write!(stream, ..)` on an io::Write renders the arguments, write_all()s the bytes and returns the I/O error (documented behaviour of io::Write::write_fmt; CBMC does not finish on the std implementation itself)', 'trait impls for Vec<u8>, File, dyn Write, stdio and their locks forward to the same function (one-line forwards, not harnessed)', 'S4 (spec/sgr.rs) as SGR reference'],
-    'explanation': 'Kani checks write_colored against a scripted writer: codes-before-data interpret (S4) to exactly the requested colours, data forwarded unchanged, reset after, returned count is what the writer accepted for the data, inner errors surface.',
+    'quick': {'kani': [{'crate': 'anstyle-wincon', 'harnesses': C17_H, 'timeout': 1500, 'mem_gb': 8, 'jobs': 15, 'fmt_direct': True, 'flags': ['-Z', 'restrict-vtable'], 'io_error_unwind': 2}]},
+    'bounded': {h: 'concrete colour pairs (every colour alone in each slot, no colour, sixteen two-colour pairs with every colour once per slot; every failure point for a two-colour, a one-colour and a no-colour write); data 1-2 symbolic bytes, any prefix of the data accepted' for h in C17_H},
+    'rule': 'one case = one concrete colour pair and failure point x all data bytes x all accepted prefixes; non-trivial = verified with short-write / full-write / error witnesses reached',
+    'assumptions': ['std `write!(stream, ..)` on an io::Write renders the arguments, write_all()s the bytes and returns the I/O error (documented behaviour of io::Write::write_fmt; CBMC does not finish on the std implementation itself)', 'trait impls for Vec<u8>, File, dyn Write, stdio and their locks forward to the same function (one-line forwards, not harnessed)', 'S4 (spec/sgr.rs) as SGR reference',
+                    '240 of the 256 two-colour pairs are not run (the function treats the two slots independently; with symbolic colours CBMC reports a spurious failure, see DESIGN 8.23); all 17 x 17 x 5 cases pass natively (wincon_ansi_native_all_pairs in the replay build)',
+                    '"stripping it gives back the data" follows from C01 for pure-SGR codes (the codes are shown to be pure SGR by the S4 reading); not re-run here'],
+    'explanation': 'Kani checks write_colored against a scripted writer: exact call sequence (fg code, bg code, one plain write of the caller\'s slice, reset; stops at the first error), every code read through S4 on the running terminal state (pure SGR, selects exactly the requested colour, reset restores the default), returned count is what the writer accepted for the data, inner errors surface.',
 }
 PROPS['C17']['thorough'] = PROPS['C17']['quick']
-'''
 
 PROPS['C20'] = {
     'level': 'proof',
@@ -278,11 +280,11 @@ PROPS['C20'] = {
 PROPS['C18'] = {
     'level': 'model_checking',
     'functions': ['anstream::wincon::{write,write_all,cap_wincon_color} (cut verbatim from the working tree and compiled on this platform)'],
-    'quick': {'kani': [{'crate': 'anstream', 'harnesses': ['wincon_cap_color', 'wincon_write_reports_progress'], 'timeout': 2400, 'mem_gb': 12, 'jobs': 3, 'flags': ['-Z', 'stubbing']}]},
+    'quick': {'kani': [{'crate': 'anstream', 'harnesses': ['wincon_cap_color', 'wincon_write_reports_progress'], 'timeout': 2400, 'mem_gb': 12, 'jobs': 3, 'flags': ['-Z', 'stubbing', '-Z', 'restrict-vtable'], 'io_error_unwind': 2, 'tag': 'rv'}]},
     'bounded': {'wincon_write_reports_progress': 'the styled-run extractor replaced by a recording stand-in yielding 0-2 runs with arbitrary fg/bg colours and 1-2 byte texts; at most one misbehaving console call (any prefix, zero, Interrupted, Other)'},
     'rule': 'one case = one harness over all extractor answers (<= 2 runs) x all console scripts (<= 2 faults); non-trivial = verified with covers reached',
     'assumptions': ['modular: which runs the extractor yields for a given input (visible text in order, no escape byte, style in effect) is C02 + C07; here write/write_all are verified to hand over exactly the runs they are given',
-                    'write_all (retry loop: each run handed over exactly once, Interrupted retried, WriteZero) is NOT verified: its harness (wincon_write_all_plumbing, kept in the source) does not finish in CBMC (> 30 min, 10 GB)',
+                    'write_all (retry loop: each run handed over exactly once, Interrupted retried, WriteZero) is NOT verified: its harnesses (wincon_write_all_plumbing, _single_run, _nonzero; kept in the source) do not finish in CBMC (> 15-30 min, 4-10 GB) in any shape tried, also not with the io::Error recursion limit',
                     'impl Write for WinconStream, write_fmt and write_vectored only compile on Windows and are not covered'],
     'explanation': 'The platform-independent functions of the console stream are extracted verbatim; cap_wincon_color is verified completely, `write` against an uninterpreted run extractor and a recording console whose every call may accept any prefix, nothing, or fail.',
 }
@@ -293,7 +295,7 @@ PROPS['C19'] = {
     'functions': ['impl Write for StripStream / AutoStream (write, write_vectored, flush, write_all, write_fmt): lock acquisitions per call',
                   'colorchoice::AtomicChoice::{new,get,set,from_choice,to_choice}'],
     'quick': {'kani': [
-        {'crate': 'anstream', 'harnesses': ['stream_methods_forward', 'auto_pass_one_write', 'auto_pass_all_write', 'auto_pass_vectored_write', 'auto_pass_flushes', 'auto_routed_one_write', 'auto_routed_all_write', 'auto_routed_vectored_write', 'auto_routed_flushes', 'lock_write_fmt_once_pass', 'lock_write_fmt_once_strip'], 'timeout': 1500, 'flags': ['-Z', 'stubbing'], 'mem_gb': 12},
+        {'crate': 'anstream', 'harnesses': ['stream_method_write_once', 'stream_method_vectored_once', 'stream_method_write_all_once', 'stream_method_flush_once', 'auto_pass_one_write', 'auto_pass_all_write', 'auto_pass_vectored_write', 'auto_pass_flushes', 'auto_routed_one_write', 'auto_routed_all_write', 'auto_routed_vectored_write', 'auto_routed_flushes', 'lock_write_fmt_once_pass', 'lock_write_fmt_once_strip'], 'timeout': 1500, 'flags': ['-Z', 'stubbing', '-Z', 'restrict-vtable'], 'mem_gb': 12, 'io_error_unwind': 2, 'tag': 'rv'},
         {'crate': 'colorchoice', 'harnesses': ['choice_encoding_total'], 'timeout': 600}]},
     'explanation': 'REDUCED FORM, no schedule is explored: neither Verus (without its permission types) nor Kani models threads. What is verified is the sequential sufficient condition the code relies on: every Write method of StripStream and AutoStream acquires the inner lock exactly once and performs all inner writes through that guard (so one print!/write_all/write_fmt call is one critical section of StdoutLock), and the atomic colour choice is a total, injective encoding whose get cannot panic. That one critical section is not interleaved, and that AtomicUsize with SeqCst behaves as an atomic register, are std contracts: ASSUMED.',
     'assumptions': ['std::io::StdoutLock / StderrLock give mutual exclusion for the lifetime of the guard (std contract, assumed)',
